@@ -243,7 +243,7 @@ func (i *interpreter) spawn(fr *frame, pos token.Pos, fn value, args []value, ha
 				case pathEnd:
 					s.finish(p)
 				default:
-					i.fail("panic", describePanic(p)+" (in goroutine "+g.name+")", i.ps.panicStk)
+					i.failWithPathModel("panic", describePanic(p)+" (in goroutine "+g.name+")", i.ps.panicStk)
 					s.finish(pathEnd{kind: endFailure})
 				}
 			}
